@@ -90,6 +90,31 @@ def run(chk):
         ops.append({"op": "pcdelta_norm", "pseudocount": core.fstr(c), **base})
         checks.append(("norm", {**meta, "pseudocount": float(c)},
                        core.call_real(lambda: [float(v) for v in ds.pcDelta(xs, ys, normalize=True, pseudocount=float(c), **kw)]), None))
+    # fewer sequences than comparison sequences (and the reverse) with insertion != deletion weights and strings of different
+    # lengths: entry (i, j) is the cost of turning seqs[i] into seqs2[j], not the other way round
+    for _ in range(6 if not thorough else 40):
+        shorts = [gen.mutate(rng, "CAS", "ACD", 1) or "C" for _ in range(rng.randint(1, 3))]
+        longs = [gen.mutate(rng, "CASSLGQF", "ACD", 2) for _ in range(rng.randint(4, 7))]
+        wi, wd, ws = rng.choice([(1, 3, 1), (4, 1, 2), (1, 5, 5)])
+        metric = WeightedLevenshtein(insertion_weight=wi, deletion_weight=wd, substitution_weight=ws)
+        for xs_, ys_ in ((shorts, longs), (longs, shorts)):
+            base = {"xs": xs_, "xs2": ys_, "edges": [str(e) for e in range(0, 41)], "metric": "wlev", "wi": wi, "wd": wd, "ws": ws}
+            ops.append({"op": "pcdelta", **base})
+            checks.append(("counts", {"xs": xs_, "xs2": ys_, "edges": "0..40", "metric": f"wlev{(wi, wd, ws)}"},
+                           core.call_real(lambda: [int(v) for v in ds.pcDelta(xs_, ys_, metric=metric, bins=list(range(0, 41)), normalize=False)]), None))
+    # no bins given: the documented default range(0, 25) (24 unit bins from 0; distances beyond 24 are not counted)
+    for _ in range(6 if not thorough else 40):
+        xs = gen.sub_collection(rng, pool, rng.randint(2, 9)) + (["A" * 30, "C" * 3] if rng.random() < 0.5 else [])
+        ys = gen.sub_collection(rng, pool, rng.randint(1, 6)) if rng.random() < 0.4 else None
+        base = {"xs": xs, "edges": [str(e) for e in range(0, 25)], "metric": "lev"}
+        if ys is not None:
+            base["xs2"] = ys
+        ops.append({"op": "pcdelta", **base})
+        checks.append(("counts", {"xs": xs, "xs2": ys, "edges": "default", "metric": "default"},
+                       core.call_real(lambda: [int(v) for v in ds.pcDelta(xs, ys, normalize=False)]), None))
+        ops.append({"op": "pcdelta_norm", "pseudocount": "0", **base})
+        checks.append(("norm", {"xs": xs, "xs2": ys, "edges": "default", "metric": "default", "pseudocount": 0.0},
+                       core.call_real(lambda: [float(v) for v in ds.pcDelta(xs, ys)]), None))
     # zero-bin identity on the real code: count at distance 0 = sum n_i (n_i - 1) / 2
     for _ in range(20):
         xs = gen.sub_collection(rng, pool[:15], rng.randint(2, 30))
